@@ -45,6 +45,7 @@ structure CState where
   sync : List Nat := []
   seenLoc : Nat := 0       -- highest logical / physical boundary the implementation has reported
   seenPhys : Nat := 0
+  rtsSeen : Nat := 0       -- rc.state.RetentionThroughSeq of the loaded runtime channel (lost at reopen)
 deriving Inhabited
 
 structure St where
@@ -112,7 +113,7 @@ def stepDrv (st : St) (line impl : String) : St × String × String :=
   let bad : St × String × String := (st, "bad-op", "ok")
   match fields line with
   | ["reopen"] =>
-    ({ st with chans := st.chans.map (fun cs => { cs with ch := { cs.ch with leoC := none } }) }, "ok", "ok")
+    ({ st with chans := st.chans.map (fun cs => { cs with ch := { cs.ch with leoC := none }, rtsSeen := 0 }) }, "ok", "ok")
   | ["gate", role, loc, isr, prog, hw, ck, leo, phys, rts, through] =>
     match num? role, num? loc, nodes? isr, prog? prog, num? hw, num? ck, num? leo, num? phys, num? rts, num? through with
     | some role, some loc, some isr, some prog, some hw, some ck, some leo, some phys, some rts, some t =>
@@ -225,19 +226,27 @@ def stepDrv (st : St) (line impl : String) : St × String × String :=
       let (leo0, ch1) := loadLEO cs.ch
       let ckhw := Nat.min (match ch1.ck with | some k => k.hw | none => 0) leo0
       let r0 := retOrZero ch1
+      let rtsNow := Nat.max (Nat.max cs.rtsSeen rts) through
       let rs : RState := ⟨role, loc, isr, prog, Nat.min (ckhw + hwlead) leo0, ckhw,
-                          (if r0.max > leo0 then r0.max else leo0), r0.phys, Nat.max rts through⟩
-      if through ≤ r0.loc ∧ through ≤ r0.phys then
-        (st.set c { cs with ch := ch1 }, "noop", if impl = "noop" then "ok" else "ok")
-      else
-        let (allowed, reason) := trimDecision rs through
-        let before := ch1.rows.map (·.seq)
-        let (ch2, res) := storeRetention ch1 through allowed maxMsgs maxBytes
-        let head := s!"allowed={boolStr allowed} reason={if reason.isEmpty then "-" else reason} gate={rs.hw}/{rs.ckhw}/{rs.leo}/{minISRMatch rs}"
-        let rowsStr := ranges (ch2.rows.map (·.seq))
-        let mStr := match res with
-          | .error e => s!"{head} {errStr e} rows={rowsStr}"
-          | .ok o => s!"{head} ok {o.loc} {o.phys} {o.max} {o.delThrough} {o.deleted} {boolStr o.more} rows={rowsStr}"
+                          (if r0.max > leo0 then r0.max else leo0), r0.phys, rtsNow⟩
+      let cs := { cs with rtsSeen := rtsNow }
+      let (allowed, reason) := trimDecision rs through
+      let head := s!"allowed={boolStr allowed} reason={if reason.isEmpty then "-" else reason} gate={rs.hw}/{rs.ckhw}/{rs.leo}/{minISRMatch rs}"
+      let before := ch1.rows.map (·.seq)
+      -- handleApplyRetentionBoundary: no-op when the boundary is already adopted and trimmed
+      let (ch2, body) : Chan × String :=
+        if through ≤ r0.loc ∧ through ≤ r0.phys then
+          (ch1, s!"ok {r0.loc} {r0.phys} {through} 0 0 0 -")
+        else
+          -- trySubmitRetentionCheckpoint (only when blocked by checkpoint lag, and HW / LEO cover the boundary)
+          let chk := if reason = "checkpoint_lag" ∧ ¬(through ≤ rs.ckhw ∨ through > rs.hw ∨ through > rs.leo)
+                     then (storeCkptHW ch1 through).1 else ch1
+          let (ch2, res) := storeRetention chk through allowed maxMsgs maxBytes
+          (ch2, match res with
+            | .error e => errStr e
+            | .ok o => s!"ok {o.loc} {o.phys} {through} {o.delThrough} {o.deleted} {boolStr o.more} {if reason.isEmpty then "-" else reason}")
+      let ckAfter := Nat.min (match ch2.ck with | some k => k.hw | none => 0) (loadLEO ch2).1
+      let mStr := s!"{head} {body} ck={ckAfter} rows={ranges (ch2.rows.map (·.seq))}"
         -- judge on the implementation's output
         let (cs', verdict) : CState × String :=
           match (if impl = "noop" then ["noop"] else impl.splitOn " rows=") with
